@@ -30,7 +30,7 @@ EXTENDS Integers, Sequences, FiniteSets, TLC, Json, SequencesExt
 CONSTANTS MaxItems
 
 Assigning == {"G1", "GR", "GA", "GC", "GT", "GN", "GCA", "GCP", "GI1", "GI2"}
-Constraining == {"C1", "C1b", "C2", "CA", "CC", "CT", "Q", "QR", "C0", "CN1", "CN2", "CCA", "C3"}
+Constraining == {"C1", "C1b", "C2", "CA", "CC", "CT", "Q", "QR", "C0", "CN1", "CN2", "CCA", "C3", "CL"}
 Items == Assigning \cup Constraining
 \* the signals (with access text) an assigning item assigns with `<--`
 Assigns == [i \in Assigning |->
@@ -38,7 +38,7 @@ Assigns == [i \in Assigning |->
 Mentions == [i \in Constraining |->
   CASE i = "C1" -> {"s1"} [] i = "C1b" -> {"s1"} [] i = "C2" -> {"s2"} [] i = "CA" -> {"sa[i]"} [] i = "CC" -> {"c.x"} [] i = "CT" -> {"t1"}
     [] i = "Q" -> {"s1"} [] i = "QR" -> {"s2"} [] i = "C0" -> {}
-    [] i = "CN1" -> {"s1"} [] i = "CN2" -> {"s1"} [] i = "CCA" -> {"cs[i].x"} [] i = "C3" -> {"s3"}]      \* anonymous call with two `<==` inputs, s1 as first / second input
+    [] i = "CN1" -> {"s1"} [] i = "CN2" -> {"s1"} [] i = "CCA" -> {"cs[i].x"} [] i = "C3" -> {"s3"} [] i = "CL" -> {"s1"}]     \* CL: lut[s1] === 7, the signal only inside the index of a constant table      \* anonymous call with two `<==` inputs, s1 as first / second input
 
 VARIABLE prog        \* [items, nest ("none" / "if" / "loop"), rhs ("q": quadratic right-hand sides, "nq": non-quadratic), kind]
 Init == prog \in [items : {S \in SUBSET Items : Cardinality(S) <= MaxItems /\ S \cap Assigning # {}},
